@@ -5,7 +5,7 @@
 //! generated independently, plus the length law.
 
 use crate::common::*;
-use crate::{ensure, ensure_eq_bytes};
+use crate::{ensure, ensure_eq_bytes, pick};
 use vp_base::obj::*;
 use vp_base::tape::{self, Tape};
 
@@ -27,7 +27,7 @@ pub fn check(ctx: &Ctx, t: &mut Tape<'_>, r: &mut Report) -> CheckResult {
 
 fn block_modes(ctx: &Ctx, t: &mut Tape<'_>, r: &mut Report) -> CheckResult {
     let mode = t.pick(&Mode::ALL);
-    let suite = ctx.pick_suite(t, |s| s.info.has_dec || !mode.needs_dec(Direction::Dec));
+    let suite = pick!(ctx, t, r, |s| s.has_dec || !mode.needs_dec(Direction::Dec));
     let fe = suite.block_mode(mode, Direction::Enc).unwrap();
     let fd = suite.block_mode(mode, Direction::Dec).unwrap();
     let key = gen_key(t, suite);
@@ -60,7 +60,7 @@ const FORMS3: [Form; 3] = [Form::InPlace, Form::B2b, Form::Inout];
 
 fn padded(ctx: &Ctx, t: &mut Tape<'_>, r: &mut Report) -> CheckResult {
     let mode = t.pick(&Mode::ALL);
-    let suite = ctx.pick_suite(t, |s| s.info.has_dec || !mode.needs_dec(Direction::Dec));
+    let suite = pick!(ctx, t, r, |s| s.has_dec || !mode.needs_dec(Direction::Dec));
     let fe = suite.block_mode(mode, Direction::Enc).unwrap();
     let fd = suite.block_mode(mode, Direction::Dec).unwrap();
     let key = gen_key(t, suite);
@@ -102,7 +102,7 @@ fn padded(ctx: &Ctx, t: &mut Tape<'_>, r: &mut Report) -> CheckResult {
 
 fn async_oneshot(ctx: &Ctx, t: &mut Tape<'_>, r: &mut Report) -> CheckResult {
     let mode = t.pick(&[Mode::Cfb, Mode::Cfb8]);
-    let suite = ctx.pick_suite(t, |_| true);
+    let suite = pick!(ctx, t, r, |_| true);
     let fe = suite.block_mode(mode, Direction::Enc).unwrap();
     let fd = suite.block_mode(mode, Direction::Dec).unwrap();
     let key = gen_key(t, suite);
@@ -151,7 +151,7 @@ fn async_oneshot(ctx: &Ctx, t: &mut Tape<'_>, r: &mut Report) -> CheckResult {
 }
 
 fn buffered(ctx: &Ctx, t: &mut Tape<'_>, r: &mut Report) -> CheckResult {
-    let suite = ctx.pick_suite(t, |_| true);
+    let suite = pick!(ctx, t, r, |_| true);
     let fe = suite.buf(Direction::Enc).unwrap();
     let fd = suite.buf(Direction::Dec).unwrap();
     let key = gen_key(t, suite);
@@ -183,7 +183,7 @@ fn buffered(ctx: &Ctx, t: &mut Tape<'_>, r: &mut Report) -> CheckResult {
 }
 
 fn streams(ctx: &Ctx, t: &mut Tape<'_>, r: &mut Report) -> CheckResult {
-    let suite = ctx.pick_suite(t, |_| true);
+    let suite = pick!(ctx, t, r, |_| true);
     let f = &suite.streams[t.idx(suite.streams.len())];
     let key = gen_key(t, suite);
     let bs = suite.info.bs;
@@ -219,7 +219,7 @@ fn streams(ctx: &Ctx, t: &mut Tape<'_>, r: &mut Report) -> CheckResult {
 }
 
 fn cts(ctx: &Ctx, t: &mut Tape<'_>, r: &mut Report) -> CheckResult {
-    let suite = ctx.pick_suite(t, |s| !s.cts.is_empty());
+    let suite = pick!(ctx, t, r, |s| s.has_cts());
     let v = CtsVariant::ALL[t.idx(6)];
     let f = suite.cts(v).unwrap();
     let key = gen_key(t, suite);
